@@ -12,6 +12,7 @@ C_Tree == ("default" :> ("/" :> "dir" @@ "/about.txt" :> "file" @@ "/big.txt" :>
 C_MailCount == ("/m.mbox" :> 2 @@ "/md" :> 2)
 C_Defects == {}
 C_Bytecode == FALSE
+C_Buffered == FALSE
 C_OpsBound == 810
 C_Frames == {"g", "g_4f", "g_eof", "g_lf", "g_q", "g_q_tab", "g_sp", "g_tab", "gem", "gem_bad1", "gem_bad2", "gem_noauth", "gem_plain", "gem_q", "gem_query", "gem_query_q", "gp_dir", "gp_info", "gp_plus", "gp_q", "gp_view", "h_09", "h_get", "h_hdrs_noblank", "h_head", "h_noblank", "h_q", "s", "s_2sp", "s_short", "tg", "tg_tab", "th_get", "w_get", "w_hdr"}
 C_Sels == {"", "/", "/%2", "/%zz", "/../about.txt", "/1/about.txt", "/URL:http://x.org/", "/a%00b", "/about.txt", "/about.txt/x", "/a~b", "/big.txt", "/d", "/d/", "/d/.cache.pygopherd.dir", "/d//a.txt", "/gm", "/m.mbox", "/md", "/nofile", "/p.pyg", "/page.html", "/run.sh", "/t.txt.gz", "/umn", "/x\ry", "/x%0d%0ay", "/z.zip", "/z.zip/nope", "/z.zip/sub", "/z.zip/sub/inner.txt"}
